@@ -7,7 +7,7 @@ quiescence); `step specImpl` is the plain model (a file is a byte list, a handle
 flush does nothing) over the same flat directory map. `absFS` maps a concrete state to the plain
 state it stands for.
 -/
-import ArvVerif.Proofs.C08_Hist7
+import ArvVerif.Proofs.C08_Load
 import ArvVerif.Props.C08
 namespace ArvVerif.C08
 
@@ -81,6 +81,24 @@ theorem C08_history_refines (hinj : Function.Injective hash) (hmax : 1 ≤ max) 
 that starts from an empty filesystem. -/
 theorem C08_init_inv : Inv max hash (FS.init (fun _ => none) : CFS) :=
   ⟨(fun _ _ h => by cases h), (fun _ h => by cases h), (fun _ h => by cases h), (fun _ h => by cases h)⟩
+
+/-- **Loaded filesystems.** Whatever (tokenised) manifest `loadManifest` accepts — any number of
+streams, blocks of any sizes including empty ones, file tokens overlapping, repeated, zero-length,
+spanning blocks — the resulting state satisfies the invariant: every file is well-formed (each
+stored segment non-empty and inside a block that is in Keep, size = Σ lengths), Keep is consistent,
+directory entries name existing files, and there are no handles. So `C08_history_refines` needs no
+side condition for filesystems opened from a manifest. -/
+theorem C08_load_inv (hinj : Function.Injective hash)
+    (streams : List (String × List Bytes × List (Nat × Nat × String))) (s : CFS)
+    (h : loadManifest hash streams = some s) : Inv max hash s :=
+  (loadManifest_inv hinj streams s h).1
+
+/-- Histories on a filesystem opened from any manifest. -/
+theorem C08_loaded_history_refines (hinj : Function.Injective hash) (hmax : 1 ≤ max)
+    (streams : List (String × List Bytes × List (Nat × Nat × String))) (s : CFS)
+    (h : loadManifest hash streams = some s) (ops : List Op) (hdet : ∀ op ∈ ops, op.det = true) :
+    (run (concImpl hash max) s ops).2 = (run specImpl (absFS s) ops).2 :=
+  (C08_history_refines hinj hmax ops s (C08_load_inv hinj streams s h) hdet).1
 
 /-- **Flushes are invisible (3)**: `dirnode.flush` / `commitBlock` on the files of a directory —
 whatever the packing into blocks, in sync or async mode, with or without short blocks — only adds
